@@ -12,6 +12,10 @@ bit for `f32`/`f64` with whatever `sin`/`cos` the platform provides.
 `K = ℂ`, `tw i cur = (cos x, sin x)`, `x = π·i/cur`, `round` exact on integers) and proves that the iterative
 transform is the DFT and that `multiply` / `multiply_into` return / add exactly the integer convolution.
 
+`multiply_into` splits very unbalanced operands into blocks of the shorter operand's length (repair of finding F11):
+`multiply_into_blocks` is the recursion, `multiply_into_adds` / `multiply_into_value_independent_of_destination`
+(Level A) and `conv_block_additive`, `multiply_blocks_exact`, `multiply_into_exact` (Level B) are about it.
+
 **Not proved (tested, see `checks/C04.py`)**: that the IEEE rounding error of this operation sequence stays
 below 0.5 inside the envelope, and the accuracy of libm `sin`/`cos`.
 -/
@@ -113,7 +117,7 @@ theorem multiply_len (A : Arith K) (s : State K) (a b : Array Int) (ha : a.size 
 theorem multiply_empty (A : Arith K) (s : State K) (a b : Array Int) (h : a.size = 0 ∨ b.size = 0) (res : List Int) :
     (multiply A s a b).2 = [] ∧ (multiplyInto A s a b res).2 = res := by
   unfold multiply multiplyInto
-  rw [if_pos h, if_pos h]
+  rw [if_pos h, mulBlocks_eq, if_pos h]
   exact ⟨rfl, rfl⟩
 
 /-- `multiply_into` ADDS the product to the destination, position by position, on the common prefix
@@ -121,6 +125,40 @@ theorem multiply_empty (A : Arith K) (s : State K) (a b : Array Int) (h : a.size
 theorem multiply_into_adds (A : Arith K) (s : State K) (a b : Array Int) (res : List Int) :
     (multiplyInto A s a b res).2 = addPrefix res (multiply A s a b).2 :=
   multiplyInto_adds A s a b res
+
+/-- **The block recursion of `multiply_into`** (repair of F11: unbalanced operands).  With `(short, long)` = the operands
+    ordered by length (`a.len() <= b.len()` keeps `(a, b)`) and `long.len() > 2 * short.len()`, `multiply_into` is the
+    loop over `long.chunks(short.len())` that calls `multiply_into(short, block, &mut res[offset..])` recursively
+    (`blockLoop`: offset `k * short.len()`, `break` when the offset reaches `res.len()`); otherwise it is the
+    single-transform code `multiplyDirect` with the operands in the caller's order.  Any state, any arithmetic. -/
+theorem multiply_into_blocks (A : Arith K) (s : State K) (a b : Array Int) (res : List Int)
+    (ha : a.size ≠ 0) (hb : b.size ≠ 0) :
+    (a.size ≤ b.size → 2 * a.size < b.size →
+      multiplyInto A s a b res = blockLoop a b (fun blk _ s' r' => multiplyInto A s' a blk r') 0 s #[] res)
+    ∧ (b.size < a.size → 2 * b.size < a.size →
+      multiplyInto A s a b res = blockLoop b a (fun blk _ s' r' => multiplyInto A s' b blk r') 0 s #[] res)
+    ∧ (b.size ≤ 2 * a.size → a.size ≤ 2 * b.size → multiplyInto A s a b res = multiplyDirect A s a b res) := by
+  refine ⟨fun h1 h2 => ?_, fun h1 h2 => ?_, fun h1 h2 => ?_⟩
+  · show mulBlocks (multiplyDirect A) s a b res = _
+    rw [mulBlocks_eq, if_neg (by omega), if_pos h1, if_pos (by omega)]
+    rfl
+  · show mulBlocks (multiplyDirect A) s a b res = _
+    rw [mulBlocks_eq, if_neg (by omega), if_neg (by omega), if_pos (by omega)]
+    rfl
+  · exact mulBlocks_balanced (multiplyDirect A) s a b res ha hb h1 h2
+
+/-- `multiply_into` never changes the length of the destination (any state, any arithmetic, any operand shapes). -/
+theorem multiply_into_keeps_length (A : Arith K) (s : State K) (a b : Array Int) (res : List Int) :
+    (multiplyInto A s a b res).2.length = res.length :=
+  multiplyInto_length A s a b res
+
+/-- What `multiply_into` adds does not depend on the destination: there is a list `V s` of at most `|a|+|b|-1`
+    entries (depending on the object and the operands only) such that EVERY destination — shorter than a block,
+    ending inside, at or before a block boundary, longer than the product — receives `addPrefix res (V s)`. -/
+theorem multiply_into_value_independent_of_destination (A : Arith K) (a b : Array Int) (ha : a.size ≠ 0) (hb : b.size ≠ 0) :
+    ∃ V : State K → List Int, (∀ s, (V s).length ≤ a.size + b.size - 1) ∧
+      ∀ s res, (multiplyInto A s a b res).2 = addPrefix res (V s) :=
+  multiplyInto_value A a b ha hb
 
 /-- **C04, the part that is proved (Level A).** For every arithmetic (IEEE `f32`/`f64` included,
     bit for bit), every call history `h` and all inputs: `multiply` on the used object returns what a
@@ -163,6 +201,26 @@ theorem fft_internal_is_dft (h : List (Op ℂ)) (m : Nat) (inv : Bool) (buf : Ar
   obtain ⟨k, _, c⟩ := reach_after arithC h
   rw [fftInternal_canon arithC k m _ (canon_withBuf c buf)]
   exact (fftRef_dft m inv buf hb).2 p hp
+
+/-- **Additivity of the convolution in the long operand** (the identity behind the block recursion): coefficient `i`
+    of `short · long[off..]` is coefficient `i` of `short · long[off..off+ss]` plus, from position `ss` on,
+    coefficient `i - ss` of `short · long[off+ss..]`. -/
+theorem conv_block_additive (short long : Array Int) (off ss i : Nat) :
+    convAt short (long.extract off long.size) i
+      = convAt short (long.extract off (off + ss)) i
+        + if ss ≤ i then convAt short (long.extract (off + ss) long.size) (i - ss) else 0 :=
+  convAt_block_split short long off ss i
+
+/-- The integer convolution is commutative (`multiply_into` reorders its operands by length). -/
+theorem conv_comm (a b : Array Int) : convSpec a b = convSpec b a := convSpec_comm a b
+
+/-- **The block recursion around ANY exact single-transform code is exact**: operand ordering, blocks of the longer
+    operand, ragged last block, recursion on the ragged block, early `break`, destination of any length. -/
+theorem multiply_blocks_exact {σ : Type} (direct : σ → Array Int → Array Int → List Int → σ × List Int)
+    (hd : ∀ s a b res, a.size ≠ 0 → b.size ≠ 0 → (direct s a b res).2 = addPrefix res (convSpec a b))
+    (s : σ) (a b : Array Int) (res : List Int) :
+    (mulBlocks direct s a b res).2 = addPrefix res (convSpec a b) :=
+  mulBlocks_exact direct hd _ a b rfl s res
 
 /-- **`multiply_into` adds exactly the integer convolution** (exact arithmetic, any call history). -/
 theorem multiply_into_exact (h : List (Op ℂ)) (a b : Array Int) (res : List Int) :
@@ -282,5 +340,29 @@ example : result arithC (after arithC [.fft #[1, 1] 16]) (.fftMulInv #[1, -2, 3]
   have : convSpec #[1, -2, 3] #[4, 5] ++ List.replicate (2^2 - ((#[1, -2, 3] : Array Int).size + (#[4, 5] : Array Int).size - 1)) 0
       = [4, -3, 2, 15] := by decide
   rw [this]
+
+/-- The block recursion is taken (1 against 7: seven blocks of one entry) and the result has the destination's length … -/
+example : (multiplyInto junk (new junk) #[2] #[1, 2, 3, 4, 5, 6, 7] [10, 20, 30]).2.length = 3 :=
+  multiply_into_keeps_length junk _ _ _ _
+
+example : multiplyInto junk (new junk) #[2] #[1, 2, 3, 4, 5, 6, 7] [10, 20, 30]
+    = blockLoop #[2] #[1, 2, 3, 4, 5, 6, 7] (fun blk _ s' r' => multiplyInto junk s' #[2] blk r') 0 (new junk) #[] [10, 20, 30] :=
+  (multiply_into_blocks junk _ _ _ _ (by decide) (by decide)).1 (by decide) (by decide)
+
+/-- … and in exact arithmetic it is the convolution: 3 against 8 (blocks 3, 3, 2 — a ragged last block), the longer
+    operand first, destination ending inside the second block. -/
+example : (multiplyInto arithC (after arithC [.updateN 32]) #[1, 2, 3, 4, 5, 6, 7, 8] #[1, -1, 2] [100, 100, 100, 100, 100]).2
+    = [101, 101, 103, 105, 107] := by
+  rw [multiply_into_exact]; decide
+
+example : (multiply arithC (after arithC []) #[3] #[1, 2, 3, 4, 5, 6, 7]).2 = [3, 6, 9, 12, 15, 18, 21] := by
+  rw [multiply_exact]; decide
+
+example : convAt #[1, -1, 2] (#[1, 2, 3, 4, 5, 6, 7, 8].extract 0 8) 4
+    = convAt #[1, -1, 2] (#[1, 2, 3, 4, 5, 6, 7, 8].extract 0 (0 + 3)) 4
+      + convAt #[1, -1, 2] (#[1, 2, 3, 4, 5, 6, 7, 8].extract (0 + 3) 8) (4 - 3) := by
+  have := conv_block_additive #[1, -1, 2] #[1, 2, 3, 4, 5, 6, 7, 8] 0 3 4
+  rw [if_pos (by decide)] at this
+  exact this
 
 end Rlib.C04
